@@ -3,7 +3,7 @@
    get_kernel_address, guess_kernel_base: translated from /repo's C text on every run). *)
 From Coq Require Import ZArith List Bool Sorting.Sorted Sorting.Permutation.
 Import ListNotations.
-Require Import UV.Gen.Kernels UV.C10.Model UV.C10.Proofs UV.C10.Sessions UV.C10.SymCodec UV.C10.Dlopen UV.C10.Plt.
+Require Import UV.Gen.Kernels UV.C10.Model UV.C10.Proofs UV.C10.Sessions UV.C10.SymCodec UV.C10.Dlopen UV.C10.Plt UV.C10.ElfSym.
 Local Open Scope Z_scope.
 
 (* ---------------------------------------------------------------- range lookup *)
@@ -154,34 +154,46 @@ Print Assumptions C10_dlopen_list_sorted.
 
 (* ---------------------------------------------------------------- dlopen, record side *)
 (* "a module's load event precedes all records at its addresses": in the model of the dlopen()
-   wrapper as the code has it (clock read on entry, real_dlopen() afterwards), at ANY dlopen node
-   of a thread's history - outermost or issued by a constructor - the DLOP message carries the
-   entry clock value and every record made while the library is loaded (constructors, C++ global
-   initialisers, whatever they call) is later ... *)
-Theorem C10_load_precedes_ctor_records : forall base tab ctor clk c' recs dls,
-  run_act true (ADlopen base tab ctor) clk = (c', recs, dls) ->
-  In (mkDl clk base tab) dls /\ (forall t a, In (t, a) recs -> clk < t) /\ clk < c'.
+   wrapper with the clock read on entry, at ANY dlopen node of a thread's history - outermost or
+   issued by a constructor - the opened library and (fixed code, 0c4417a) every dependency mapped
+   with it get a DLOP message stamped with the entry time of the outermost dlopen in progress, and
+   every record made while the library is loaded (constructors, C++ global initialisers, whatever
+   they call, functions of the dependencies) is later ... *)
+Theorem C10_load_precedes_ctor_records : forall fixed outer base tab deps ctor clk c' recs dls,
+  outer_ok outer clk ->
+  run_act true fixed outer (ADlopen base tab deps ctor) clk = (c', recs, dls) ->
+  let stamp := dl_stamp fixed outer clk in
+  In (mkDl stamp base tab) dls /\
+  (fixed = true -> forall d, In d deps -> In (mkDl stamp (fst d) (snd d)) dls) /\
+  (forall t a, In (t, a) recs -> stamp < t) /\ stamp <= clk < c'.
 Proof. exact load_precedes_ctor_records. Qed.
 Print Assumptions C10_load_precedes_ctor_records.
 
 (* ... and so is every record of the rest of the run *)
-Theorem C10_load_precedes_all_records : forall base tab ctor rest clk c' recs dls,
-  run_acts true (ADlopen base tab ctor :: rest) clk = (c', recs, dls) ->
-  In (mkDl clk base tab) dls /\ (forall t a, In (t, a) recs -> clk < t).
+Theorem C10_load_precedes_all_records : forall fixed base tab deps ctor rest clk c' recs dls,
+  run_acts true fixed None (ADlopen base tab deps ctor :: rest) clk = (c', recs, dls) ->
+  In (mkDl clk base tab) dls /\
+  (fixed = true -> forall d, In d deps -> In (mkDl clk (fst d) (snd d)) dls) /\
+  (forall t a, In (t, a) recs -> clk < t).
 Proof. exact load_precedes_all_records. Qed.
 Print Assumptions C10_load_precedes_all_records.
 
-(* the same two statements for the wrapper as built: [wrap_dlopen_clock_first] is derived from the
-   C text of libmcount/wrap.c on every run (is mcount_gettime() called before real_dlopen()?) *)
-Theorem C10_load_precedes_ctor_records_as_built : forall base tab ctor clk c' recs dls,
-  run_act wrap_dlopen_clock_first (ADlopen base tab ctor) clk = (c', recs, dls) ->
-  In (mkDl clk base tab) dls /\ (forall t a, In (t, a) recs -> clk < t) /\ clk < c'.
+(* the same two statements for the wrapper as built: both flags are derived from the C text of
+   libmcount/wrap.c on every run (is mcount_gettime() called before real_dlopen()?  does
+   dlopen_base_callback() compare the library name with the dlopen() argument?) *)
+Theorem C10_load_precedes_ctor_records_as_built : forall outer base tab deps ctor clk c' recs dls,
+  outer_ok outer clk ->
+  run_act wrap_dlopen_clock_first wrap_dlopen_reports_all outer (ADlopen base tab deps ctor) clk = (c', recs, dls) ->
+  let stamp := match outer with Some t0 => t0 | None => clk end in
+  In (mkDl stamp base tab) dls /\ (forall d, In d deps -> In (mkDl stamp (fst d) (snd d)) dls) /\
+  (forall t a, In (t, a) recs -> stamp < t).
 Proof. exact load_precedes_ctor_records_as_built. Qed.
 Print Assumptions C10_load_precedes_ctor_records_as_built.
 
-Theorem C10_load_precedes_all_records_as_built : forall base tab ctor rest clk c' recs dls,
-  run_acts wrap_dlopen_clock_first (ADlopen base tab ctor :: rest) clk = (c', recs, dls) ->
-  In (mkDl clk base tab) dls /\ (forall t a, In (t, a) recs -> clk < t).
+Theorem C10_load_precedes_all_records_as_built : forall base tab deps ctor rest clk c' recs dls,
+  run_acts wrap_dlopen_clock_first wrap_dlopen_reports_all None (ADlopen base tab deps ctor :: rest) clk = (c', recs, dls) ->
+  In (mkDl clk base tab) dls /\ (forall d, In d deps -> In (mkDl clk (fst d) (snd d)) dls) /\
+  (forall t a, In (t, a) recs -> clk < t).
 Proof. exact load_precedes_all_records_as_built. Qed.
 Print Assumptions C10_load_precedes_all_records_as_built.
 
@@ -191,11 +203,14 @@ Theorem C10_loaded_library_is_searched : forall d t a, d_time d <= t ->
 Proof. exact loaded_library_is_searched. Qed.
 Print Assumptions C10_loaded_library_is_searched.
 
-(* wrapper + lookup: a constructor's record inside a symbol of its library resolves to it *)
-Theorem C10_dlopen_ctor_record_resolves : forall base tab ctor clk c' recs dls s l1 l2 t a x,
-  run_act true (ADlopen base tab ctor) clk = (c', recs, dls) -> In (t, a) recs ->
-  se_dl s = l1 ++ mkDl clk base tab :: l2 ->
-  find_sym tab ((a - base) mod W64) = Some x ->
+(* wrapper + lookup: a constructor's record inside a symbol of its library, or of a dependency
+   mapped by the same call, resolves to that symbol *)
+Theorem C10_dlopen_ctor_record_resolves : forall outer base tab deps ctor clk c' recs dls s l1 l2 t a x lb ltab,
+  outer_ok outer clk ->
+  run_act true true outer (ADlopen base tab deps ctor) clk = (c', recs, dls) -> In (t, a) recs ->
+  (lb, ltab) = (base, tab) \/ In (lb, ltab) deps ->
+  se_dl s = l1 ++ mkDl (dl_stamp true outer clk) lb ltab :: l2 ->
+  find_sym ltab ((a - lb) mod W64) = Some x ->
   (forall d', In d' l2 -> dl_hit t a d' = None) ->
   find_dlsym s t a = Some x.
 Proof. exact ctor_record_resolves. Qed.
@@ -208,12 +223,22 @@ Print Assumptions C10_dlop_messages_kept.
 (* the order inside the wrapper is essential: reading the clock after real_dlopen() makes the
    constructor's record predate the DLOP time stamp and the library is skipped for it *)
 Theorem C10_late_timestamp_refuted :
-  let '(_, recs, dls) := run_act false (ADlopen 4096 tab_plugin [ARec 4360]) 10 in
+  let '(_, recs, dls) := run_act false true None (ADlopen 4096 tab_plugin [] [ARec 4360]) 10 in
   recs = [(10, 4360)] /\ dls = [mkDl 11 4096 tab_plugin] /\
   find_dlsym (mkSess 0 [] 1 1 0 (mkSinfo 0 [] []) (dl_list dls)) 10 4360 = None /\
   spec_find tab_plugin (4360 - 4096) = Some (mkSym 256 64 84 [105;110;105;116]).
 Proof. exact late_timestamp_refuted. Qed.
 Print Assumptions C10_late_timestamp_refuted.
+
+(* the code as found before fix 0c4417a (name filter in dlopen_base_callback): a dependency
+   mapped by the same dlopen() call got no DLOP message and its records were not resolved *)
+Theorem C10_dlopen_dependency_legacy_refuted :
+  let '(_, recs, dls) := run_act true false None (ADlopen 4096 tab_plugin [(8192, tab_dep)] [ARec 4360; ARec 8710]) 10 in
+  recs = [(11, 4360); (12, 8710)] /\ dls = [mkDl 10 4096 tab_plugin] /\
+  find_dlsym (mkSess 0 [] 1 1 0 (mkSinfo 0 [] []) (dl_list dls)) 12 8710 = None /\
+  spec_find tab_dep (8710 - 8192) = Some (mkSym 512 32 84 [100;101;112]).
+Proof. exact dependency_legacy_refuted. Qed.
+Print Assumptions C10_dlopen_dependency_legacy_refuted.
 
 (* ---------------------------------------------------------------- PLT entries of an ELF file *)
 (* load_elf_dynsymtab / load_dyn_symbol (x86_64; the canonical-address test and both address
@@ -256,6 +281,32 @@ Theorem C10_plt_table_names : forall offset rels prev, (forall r, In r rels -> d
   Forall (fun s => s_size s = PLT_ENTSIZE /\ s_type s = K_ST_PLT_FUNC) (load_dyn_syms offset prev rels).
 Proof. exact load_dyn_syms_names. Qed.
 Print Assumptions C10_plt_table_names.
+
+(* ---------------------------------------------------------------- symbols of an ELF .symtab *)
+(* load_symtab (load_symbol over the file's symbols, sort_symtab) with SYMTAB_FL_ADJ_OFFSET - what
+   record turns into <module>.sym for the main executable and the shared libraries.
+   Every entry is a defined function/ifunc/object symbol with a size, at st_value - first PT_LOAD
+   address (the module-relative address find_symtabs looks up), PIE/shared object or not ... *)
+Theorem C10_symtab_relative : forall vaddr0 syms s,
+  (forall e, In e syms -> loadable e = true -> 0 <= vaddr0 <= e_value e /\ e_value e < W64) ->
+  In s (load_symtab true 0 vaddr0 syms) ->
+  exists e, In e syms /\ loadable e = true /\ s_addr s = e_value e - vaddr0.
+Proof. exact load_symtab_relative. Qed.
+Print Assumptions C10_symtab_relative.
+
+(* ... every such symbol of the file is represented at its address (aliases share one entry) ... *)
+Theorem C10_symtab_complete : forall vaddr0 syms e,
+  (forall e, In e syms -> loadable e = true -> 0 <= vaddr0 <= e_value e /\ e_value e < W64) ->
+  In e syms -> loadable e = true ->
+  exists s, In s (load_symtab true 0 vaddr0 syms) /\ s_addr s = e_value e - vaddr0.
+Proof. exact load_symtab_complete. Qed.
+Print Assumptions C10_symtab_complete.
+
+(* ... and the table holds every address once, in increasing order (what bsearch needs) *)
+Theorem C10_symtab_strictly_sorted : forall adj offset0 vaddr0 syms,
+  strictly_sorted (load_symtab adj offset0 vaddr0 syms) = true.
+Proof. exact load_symtab_strictly_sorted. Qed.
+Print Assumptions C10_symtab_strictly_sorted.
 
 (* ---------------------------------------------------------------- .sym files *)
 (* what save_module_symbol_file writes is read back by load_module_symbol_file as the same
